@@ -846,6 +846,7 @@ class Channel(ClosingContextManager):
             sent, there is no way to determine how much data (if any) was sent.
             This is irritating, but identically follows Python's API.
         """
+        s = util.asbytes(s)
         while s:
             sent = self.send(s)
             if sent == 0:
@@ -871,6 +872,7 @@ class Channel(ClosingContextManager):
 
         .. versionadded:: 1.1
         """
+        s = util.asbytes(s)
         while s:
             sent = self.send_stderr(s)
             if sent == 0:
@@ -1213,6 +1215,9 @@ class Channel(ClosingContextManager):
     # ...internals...
 
     def _send(self, s, m):
+        # text is sent as its UTF-8 encoding: the window and the peer's
+        # maximum packet size are counted in bytes, not characters
+        s = util.asbytes(s)
         size = len(s)
         self.lock.acquire()
         try:
